@@ -98,6 +98,53 @@ def check(case, asserting=False):
             "sample": {"pending": pending, "before": src, "after": allatonce.decode()}}
 
 
+FILE_B = ("from inline_snapshot import snapshot\n\n\ndef test_b1():\n    assert 2 in snapshot([1, 2, 3])\n\n\n"
+          "def test_b2():\n    assert 1 == snapshot(0+1)\n\n\ndef test_b3():\n    assert 7 == snapshot()\n")
+
+
+def check_pytest_two_files(case):
+    """two test files whose pending categories differ (the generated program, and a fixed second file with a
+    trim, an update and a create): together in one real session against one category per in-process run"""
+    import shutil
+
+    prog = case["prog"]
+    src, order = gp.render_program(prog)
+    files0 = {"test_a.py": src.encode(), "test_b.py": FILE_B.encode()}
+    first_name = "test_a.py" if len(src) % 2 else "test_z.py"    # the generated file is collected first or last
+    files0 = {first_name: files0["test_a.py"], "test_b.py": files0["test_b.py"]}
+
+    def run(files, F, label):
+        ses = drivers.run_inline(files, set(F))
+        if not ses.ok():
+            err = ses.exec_error or ses.collect_error or ses.apply_error
+            raise Violation(f"session-exception:{type(err).__name__}", f"{label} F={F} {type(err).__name__}: {err}\n{src}")
+        return ses
+
+    probe = run(files0, (), "probe")
+    pending = sorted(probe.reported)
+    if len(pending) < 2:
+        return {"nontrivial": False, "classes": [f"k={len(pending)}"]}
+    cur = dict(files0)
+    for cat in pending:
+        cur = dict(run(cur, [cat], f"step {cat}").files_after)
+    d = drivers.make_project({k: v.decode() for k, v in files0.items()})
+    try:
+        r = drivers.run_pytest(d, ["--inline-snapshot=" + ",".join(pending)])
+        if "INTERNALERROR" in r.stdout or r.returncode not in (0, 1) or "Traceback (most recent call last)" in r.stderr:
+            raise Violation("session-broken", f"pending={pending} rc={r.returncode}\n{src}\n{r.stdout[-1500:]}\n{r.stderr[-1500:]}")
+        together = r.files_after
+    finally:
+        shutil.rmtree(d, ignore_errors=True)
+    for name in files0:
+        if _dump(together[name], f"together {name}", src) != _dump(cur[name], f"one at a time {name}", src):
+            raise Violation("order-dependent:real-session:two-files",
+                            f"pending={pending}: {name} after a real session approving them together differs from one "
+                            f"category per run\n--- original\n{files0[name].decode()}\n--- together\n{together[name].decode()}\n"
+                            f"--- one at a time\n{cur[name].decode()}")
+    return {"nontrivial": True, "classes": [f"k={len(pending)}", "two-files", first_name],
+            "sample": {"pending": pending, "before": src}}
+
+
 def check_pytest(case):
     """all-at-once through a *real* session (the plugin applies the categories step by step for its diff
     display) against one category per run on the in-process driver"""
@@ -309,6 +356,8 @@ ARMS = [
            budget={"quick": 120, "thorough": 8000}),
     HypArm("orders_mixed", _strategy_mixed, check_mixed, budget={"quick": 300, "thorough": 10000}),
     HypArm("orders_inner", _strategy_inner, check_inner, budget={"quick": 200, "thorough": 5000}),
+    HypArm("together_two_files", _strategy, check_pytest_two_files, signature=positional_signature,
+           budget={"quick": 32, "thorough": 600}, shrink=False),
     HypArm("real_imports", _strategy_imports, check_imports, signature=imports_signature,
            budget={"quick": 16, "thorough": 300}, shrink=False, min_per_shard=2),
     HypArm("together_real_session", _strategy, check_pytest, signature=positional_signature,
